@@ -38,6 +38,8 @@ REG = {
          "The sanitizers are the monitor for the compiled code; classes they cannot see (uninitialised reads other than those repaired, intra-object overflow) are covered only where the model represents them (loop stack). One recorded known finding: seek on a light program with a zero-time cycle never returns."),
  "C16": ("Bit-exact model of builder.c (every float operation there is a correctly rounded IEEE operation, modelled with roundF32) compared with the implementation byte for byte after every call: all call sequences up to length 3/4 over a boundary alphabet for scales {1,2,127} plus random sequences of 200 calls; a rejected call must leave the buffer unchanged; the finished trajectory's bytes and total duration are compared too. Lean 4 theorems: splitting of long segments and chunking of holds preserve the requested duration exactly and never exceed 60000 ms (<= 65535 side-condition on the generated constant), a long append_line is exactly a sequence of ordinary segments with those durations ending at the target, invalid scales and late set-start are rejected, an unrepresentable target is rejected before anything is appended.",
          "PARTIAL: 'within one quantum of each accepted point' is not a Lean theorem; it is implied for the implementation by the byte-exact agreement with the model's floor(x/scale) quantisation, whose one-quantum property is plain arithmetic but not yet stated in Lean. That validation of the target implies success of every split piece (midpoints lie between representable points) relies on monotonicity of float rounding (not proven)."),
+ "C20": ("Bit-exact model (every float step through roundF32) compared exactly with the implementation: scale update on boundary grids k*32767, k*32767+-1 and float neighbours; seconds->ms incl. 4294967 s and neighbours; interval/box expansion; colour interpolation by exhaustive rows (all second values x 33 ratios per first value) and seeded ratios in and outside [0,1]; RGBW min-subtraction/fixed/reference by exhaustive rows (thorough: all 2^24 colours); buffer: all operation sequences up to length 3/4 over small sizes for owned buffers and views, state compared after every op. The documented contracts are re-checked on the model's answers (least scale, between-ness, reference <= original, never-inverted). Travel time: compared with the exact profile without sqrt (squared comparison) incl. the regime boundary; monotonicity on dense float neighbourhoods. Lean 4 theorems: buffer refinement (contents survive growth, capacity never lowered by growth, a view can be neither grown nor shrunk, shrinking keeps the prefix), RGBW minimum subtraction, interval never inverted / collapses, and over the reals the travel-time profile: the code's cruise expression, continuity at the regime boundary, monotonicity in the distance.",
+         "PARTIAL for sqrtf (not modelled; squared comparison). least-scale / between-ness / reference<=original are run-time contract checks on the bit-exact model rather than Lean theorems (they depend on monotonicity of float rounding)."),
 }
 
 checks = []
